@@ -232,6 +232,9 @@ def _run(mod, prop, tier, args, tmpdir, t0):
         print("KNOWN-FINDING: property=%s %s: %s (seen %d time(s) in this run)" % (prop, key, f.get("what", ""), n))
 
     os.makedirs(os.path.join(OUT, "replay"), exist_ok=True)
+    for fn in os.listdir(os.path.join(OUT, "replay")):
+        if fn.startswith(prop + "-"):
+            os.unlink(os.path.join(OUT, "replay", fn))
     rc = 0
     seen_keys = set()
     for v in new:
